@@ -3,6 +3,7 @@ package main
 // Case generators. Every random choice derives from one PRNG state.
 
 import (
+	"math/big"
 	"encoding/hex"
 	"fmt"
 	"strconv"
@@ -55,7 +56,8 @@ func (g *genCtx) param() string {
 	pool := []string{"", "0", "1", "2", "3", strconv.Itoa(w - 1), strconv.Itoa(w), strconv.Itoa(w + 1),
 		strconv.Itoa(h - 1), strconv.Itoa(h), strconv.Itoa(h + 1), "255", "256", "65535",
 		"2147483647", "2147483648", "4294967296", "9223372036854775807", "9223372036854775808",
-		"18446744073709551616", "100000000000000000000"}
+		"18446744073709551616", "100000000000000000000", "2147483649", "2147483650", "4294967297", "4294967298", "9223372036854775809",
+		"18446744073709551617", "18446744073709551618"}
 	switch g.r.intn(10) {
 	case 0, 1, 2, 3, 4:
 		return pool[g.r.intn(11)]
@@ -216,7 +218,8 @@ func (g *genCtx) item(class string) Item {
 	case "wrap":
 		return in(class, csi(pick(r, []string{"?7h", "?7l", "?7h"})))
 	case "mode":
-		modes := []string{"1", "7", "9", "12", "25", "1000", "1002", "1003", "1004", "1005", "1006", "1015", "1049", "2004", "1034", "3", "47", "0", ""}
+		modes := []string{"1", "7", "9", "12", "25", "1000", "1002", "1003", "1004", "1005", "1006", "1015", "1049", "2004", "1034", "3", "47", "0", "",
+			"1007", "1048", "2026", "69", "1001"}
 		n := 1
 		if r.chance(1, 4) {
 			n = 2 + r.intn(3)
@@ -243,6 +246,15 @@ func (g *genCtx) item(class string) Item {
 			return in(class, csi("?u"))
 		}
 	case "query":
+		if r.chance(1, 8) {
+			// selectors that only look like a query after wrapping modulo 2^31, 2^32, 2^63 or 2^64
+			base := pick(r, []string{"2147483648", "4294967296", "9223372036854775808", "18446744073709551616"})
+			k := pick(r, []int{0, 5, 6})
+			n := new(big.Int)
+			n.SetString(base, 10)
+			n.Add(n, big.NewInt(int64(k)))
+			return in(class, csi(pick(r, []string{"", ">", "?"})+n.String()+pick(r, []string{"n", "c", "n"})))
+		}
 		return in(class, csi(pick(r, []string{"c", "0c", "1c", ">c", ">0c", ">1c", "5n", "6n", "6n", "?u", "n", "0n", "7n", "?6n", "=c",
 			"0;1c", "1;0c", ";1c", "1;c", "2;0;0c", "0;0c", "5;6n", "6;5n", "0;6n", "6;0n", ";6n", "6;n", "?1u", "?;u", ">5;0c", "5;n", "05n", "006n"})))
 	case "esc":
@@ -257,6 +269,11 @@ func (g *genCtx) item(class string) Item {
 			payload = append(payload, pick(r, [][]byte{[]byte("✜"), []byte("Ü"), []byte("œ"), []byte("🌜"), []byte("😜x"), []byte("𐀜"), {27, 'x'}, []byte(";a;b"), []byte("\\"), {0xc2, 0x9c}})...)
 		}
 		term := pick(r, [][]byte{{7}, {27, '\\'}, {7}, {0x9c}})
+		if r.chance(1, 6) {
+			// the payload ends in an incomplete multi-byte character (a title cut short, Latin-1 text)
+			payload = append(payload, pick(r, [][]byte{{0xe2}, {0xe2, 0x82}, {0xf0, 0x9f}, {0xf0, 0x9f, 0x90}, {0xc3}, {0xe9}})...)
+			term = pick(r, [][]byte{{7}, {7}, {27, '\\'}})
+		}
 		b := append([]byte("\x1b]"+num+";"), payload...)
 		if r.chance(1, 8) {
 			b = []byte("\x1b]" + num)
@@ -291,7 +308,10 @@ func (g *genCtx) item(class string) Item {
 	case "resize":
 		w, h := g.sizePick()
 		g.w, g.h = w, h
-		return Item{Kind: "resize", W: w, H: h}
+		if r.chance(1, 12) {
+			return Item{Kind: "refront"}
+		}
+		return Item{Kind: "resize", W: w, H: h, Fail: r.chance(1, 8)}
 	}
 	panic("unknown class " + class)
 }
@@ -508,9 +528,15 @@ func (g *genCtx) macro(name string) []Item {
 			} else {
 				goTo(y, r.intn(g.w))
 			}
-			add("textzero", pick(r, []string{"\u0301", "\u0308", "\u20dd", "\ufe0e"}))
-			if r.chance(1, 3) {
-				add("text", string(g.text(1, false, false)))
+			mark := pick(r, []string{"\u0301", "\u0308", "\u20dd", "\ufe0e"})
+			if r.chance(1, 2) {
+				// ordinary text follows the mark in the same read
+				add("textzero", mark+string(g.text(1+r.intn(3), r.chance(1, 3), false)))
+			} else {
+				add("textzero", mark)
+				if r.chance(1, 3) {
+					add("text", string(g.text(1, false, false)))
+				}
 			}
 		}
 	case "alt-text-edge":
@@ -539,6 +565,31 @@ func (g *genCtx) macro(name string) []Item {
 		for k, n := 0, 1+r.intn(3); k < n; k++ {
 			goTo(pick(r, []int{t, b, r.intn(g.h), t / 2, 0, g.h - 1}), r.intn(g.w))
 			add("erase", pick(r, []string{"\x1b[J", "\x1b[1J", "\x1b[1J", "\x1b[2J", "\x1b[K", "\x1b[1K", "\x1b[2K", "\x1b[3X", "\x1b[2P"}))
+		}
+	case "resize-twice-then-edit":
+		// two resizes in a row with rows left untouched in between, then an edit that reaches the right edge
+		for k, n := 0, 1+r.intn(2); k < n; k++ {
+			goTo(r.intn(g.h), 0)
+			add("text", string(g.text(1+r.intn(g.w), false, false)))
+		}
+		for k := 0; k < 2; k++ {
+			w, h := g.w+r.intn(7)-2, g.h+r.intn(3)-1
+			if k == 0 && r.chance(2, 3) {
+				w, h = g.w+1+r.intn(6), g.h // first wider, rows untouched
+			}
+			if w < 1 {
+				w = 1
+			}
+			if h < 1 {
+				h = 1
+			}
+			g.w, g.h = w, h
+			out = append(out, Item{Kind: "resize", W: w, H: h})
+		}
+		add("sgr", pick(r, []string{"\x1b[44m", "\x1b[7m", "\x1b[48;5;9m", "\x1b[41;1m"}))
+		for k, n := 0, 2+r.intn(4); k < n; k++ {
+			goTo(r.intn(g.h), r.intn(g.w))
+			add("erase", pick(r, []string{fmt.Sprintf("\x1b[%dP", 1+r.intn(4)), fmt.Sprintf("\x1b[%dP", 1+r.intn(4)), "\x1b[K", fmt.Sprintf("\x1b[%dX", 1+r.intn(g.w)), "\x1b[2K"}))
 		}
 	case "erase-after-scroll":
 		// rows vacated by one scroll of several rows, then a whole-row (or row-end) edit of ONE
@@ -606,7 +657,7 @@ func (g *genCtx) macro(name string) []Item {
 }
 
 var macroNames = []string{"save-resize-restore", "outside-region", "alt-roundtrip", "wide-edges", "autowrap-corners", "wide-splice",
-	"resize-wide-rows", "mark-after-motion", "alt-text-edge", "erase-with-region", "erase-after-scroll", "save-alt-restore"}
+	"resize-wide-rows", "mark-after-motion", "alt-text-edge", "erase-with-region", "erase-after-scroll", "save-alt-restore", "resize-twice-then-edit"}
 
 func (g *genCtx) sizePick() (int, int) {
 	r := g.r
@@ -688,11 +739,11 @@ var profiles = map[string]*profile{
 		minLen: 4, maxLen: 40, grid: 30, chunks: []int{0, 1, 3}},
 	"C04": {name: "C04", gmode: 8, macros: 8, macroSet: []string{"outside-region", "autowrap-corners", "save-resize-restore", "save-alt-restore"}, weights: map[string]int{"cursor": 40, "c0": 15, "index": 12, "goto": 6, "margins": 8, "text": 10, "textwide": 3, "wrap": 3, "lf": 5, "crlf": 3, "manyparams": 2, "altscreen": 2},
 		minLen: 4, maxLen: 40, grid: 30, chunks: []int{0, 1}},
-	"C05": {name: "C05", gmode: 12, macros: 10, macroSet: []string{"wide-edges", "wide-splice", "erase-with-region", "erase-after-scroll"}, weights: map[string]int{"erase": 35, "goto": 20, "text": 15, "textwide": 15, "textlong": 6, "sgr": 8, "wrap": 2, "crlf": 3, "margins": 3, "scroll": 3},
+	"C05": {name: "C05", gmode: 12, macros: 10, macroSet: []string{"wide-edges", "wide-splice", "erase-with-region", "erase-after-scroll", "resize-twice-then-edit"}, weights: map[string]int{"erase": 35, "goto": 20, "text": 15, "textwide": 15, "textlong": 6, "sgr": 8, "wrap": 2, "crlf": 3, "margins": 3, "scroll": 3, "resize": 2},
 		minLen: 5, maxLen: 40, grid: 30, chunks: []int{0, 1}},
-	"C06": {name: "C06", gmode: 10, macros: 10, macroSet: []string{"outside-region", "autowrap-corners"}, weights: map[string]int{"scroll": 25, "margins": 14, "index": 14, "lf": 8, "goto": 12, "text": 12, "textwide": 5, "textlong": 6, "wrap": 4, "sgr": 4, "crlf": 4},
+	"C06": {name: "C06", gmode: 10, macros: 10, macroSet: []string{"outside-region", "autowrap-corners"}, weights: map[string]int{"scroll": 25, "margins": 14, "index": 14, "lf": 8, "goto": 12, "text": 12, "textwide": 5, "textlong": 6, "wrap": 4, "sgr": 4, "crlf": 4, "resize": 3},
 		minLen: 5, maxLen: 40, grid: 30, chunks: []int{0, 1}},
-	"C07": {name: "C07", macros: 6, macroSet: []string{"wide-edges", "wide-splice"}, weights: map[string]int{"sgr": 40, "text": 20, "textwide": 6, "erase": 12, "goto": 10, "scroll": 3, "manyparams": 3, "crlf": 3},
+	"C07": {name: "C07", macros: 6, macroSet: []string{"wide-edges", "wide-splice"}, weights: map[string]int{"sgr": 40, "text": 20, "textwide": 6, "erase": 12, "goto": 10, "scroll": 3, "manyparams": 3, "crlf": 3, "resize": 2, "altscreen": 2},
 		minLen: 5, maxLen: 40, grid: 30, chunks: []int{0, 1}},
 	"C09": {name: "C09", weights: map[string]int{"oddcsi": 25, "esc": 15, "osc": 15, "dcs": 10, "text": 20, "textwide": 4, "manyparams": 4, "sgr": 3, "cursor": 4, "query": 3, "mode": 3, "kbd": 3},
 		minLen: 3, maxLen: 30, grid: 10, chunks: []int{0, 1, 2, 3}},
@@ -700,8 +751,10 @@ var profiles = map[string]*profile{
 		minLen: 5, maxLen: 50, grid: 30, chunks: []int{0, 1}},
 	"C14": {name: "C14", shortWrites: 35, macros: 8, macroSet: []string{"alt-roundtrip", "save-resize-restore"}, weights: withWeights(map[string]int{"query": 25, "kbd": 8, "altscreen": 4, "goto": 14, "resize": 3}),
 		minLen: 4, maxLen: 40, grid: 20, chunks: []int{0, 1, 3}},
-	"C17": {name: "C17", macros: 12, macroSet: []string{"alt-roundtrip"}, weights: map[string]int{"mode": 30, "altscreen": 15, "text": 15, "textwide": 4, "goto": 8, "kbd": 8, "margins": 5, "wrap": 6, "sgr": 4, "erase": 4, "scroll": 3, "lf": 4},
+	"C17": {name: "C17", macros: 12, macroSet: []string{"alt-roundtrip"}, weights: map[string]int{"mode": 30, "altscreen": 15, "text": 15, "textwide": 4, "goto": 8, "kbd": 8, "margins": 5, "wrap": 6, "sgr": 4, "erase": 4, "scroll": 3, "lf": 4, "resize": 4},
 		minLen: 5, maxLen: 40, grid: 20, chunks: []int{0, 1}},
+	"C16g": {name: "C16g", gmode: 100, macros: 20, macroSet: []string{"mark-after-motion", "wide-edges", "autowrap-corners"}, weights: map[string]int{"text": 30, "textwide": 20, "textzero": 14, "textlong": 10, "goto": 10, "cursor": 6, "sgr": 5, "crlf": 4, "wrap": 4},
+		minLen: 4, maxLen: 30, grid: 0, chunks: []int{1, 3, 3}},
 	"C18": {name: "C18", gmode: 10, macros: 12, macroSet: []string{"save-resize-restore", "wide-edges", "resize-wide-rows"}, weights: withWeights(map[string]int{"resize": 20, "textwide": 15, "textlong": 12, "margins": 8, "cursor": 12, "altscreen": 3}),
 		minLen: 5, maxLen: 40, grid: 30, chunks: []int{0, 1}, sizes: func(g *genCtx) (int, int) { return g.sizePick() }},
 	"C19": {name: "C19", macros: 10, macroSet: []string{"alt-roundtrip"}, weights: map[string]int{"kbd": 70, "altscreen": 10, "text": 5, "mode": 5, "query": 5},
